@@ -551,7 +551,41 @@ def translate_mac_input():
                  "read_mac_input_is_seq_len_and_whole_packet": ([], [])}
 
 
+def translate_seqno_in_order():
+    """Packetizer.read_message: the inbound sequence counter is stepped only AFTER the packet was authenticated — the
+    single assignment to `self.__sequence_number_in` in read_message comes after both "Mismatched MAC" checks and after
+    the AEAD decrypt in statement order, at the top level of the function, read_message calls no helper that assigns
+    the counter, and the only other writers in the class are __init__ and reset_seqno_in"""
+    import paramiko.packet as pkmod
+
+    tree = ast.parse(inspect.getsource(pkmod))
+    cls = next(n for n in tree.body if isinstance(n, ast.ClassDef) and n.name == "Packetizer")
+    writers = {}
+    for fn in cls.body:
+        if isinstance(fn, ast.FunctionDef):
+            for x in ast.walk(fn):
+                tg = []
+                if isinstance(x, ast.Assign):
+                    tg = x.targets
+                elif isinstance(x, (ast.AugAssign, ast.AnnAssign)):
+                    tg = [x.target]
+                if any(ast.unparse(t) == "self.__sequence_number_in" for t in tg):
+                    writers.setdefault(fn.name, 0)
+                    writers[fn.name] += 1
+    writers_ok = writers == {"__init__": 1, "reset_seqno_in": 1, "read_message": 1}
+    rd = next(fn for fn in cls.body if isinstance(fn, ast.FunctionDef) and fn.name == "read_message")
+    idx_assign = [i for i, st in enumerate(rd.body) if isinstance(st, ast.Assign)
+                  and ast.unparse(st.targets[0]) == "self.__sequence_number_in"]
+    idx_auth = [i for i, st in enumerate(rd.body) if "Mismatched MAC" in ast.unparse(st) or ".decrypt(" in ast.unparse(st)]
+    after = len(idx_assign) == 1 and len(idx_auth) == 3 and idx_assign[0] > max(idx_auth)
+    src = ("def read_seqno_in_stepped_after_authentication : Bool :=\n  %s\n\n"
+           "def seqno_in_writers_are_init_reset_read : Bool :=\n  %s\n" % (_b(after), _b(writers_ok)))
+    return src, {"read_seqno_in_stepped_after_authentication": ([], []), "seqno_in_writers_are_init_reset_read": ([], [])}
+
+
 EXPECTED_SIG = {
+    "read_seqno_in_stepped_after_authentication": ([], []),
+    "seqno_in_writers_are_init_reset_read": ([], []),
     "compute_hmac_one_shot_over_whole_message": ([], []),
     "send_mac_input_is_seq_and_whole_packet": ([], []),
     "read_mac_input_is_seq_len_and_whole_packet": ([], []),
@@ -593,6 +627,7 @@ def gen_lean(ctx=None):
     k5, s5 = translate_send_lock()
     k6, s6 = translate_mac_guards()
     k7, s7 = translate_mac_input()
+    k8, s8 = translate_seqno_in_order()
     sig = dict(s1)
     sig.update(s2)
     sig.update(s3)
@@ -600,6 +635,7 @@ def gen_lean(ctx=None):
     sig.update(s5)
     sig.update(s6)
     sig.update(s7)
+    sig.update(s8)
     if sig != EXPECTED_SIG:
         raise Untranslatable("kernel inputs changed: %r" % sig)
     lines = [
@@ -637,6 +673,7 @@ def gen_lean(ctx=None):
     lines.append(k5)
     lines.append(k6)
     lines.append(k7)
+    lines.append(k8)
     lines.append("end PV.Generated.C03")
     return "\n".join(lines) + "\n"
 
